@@ -21,13 +21,13 @@ EXTRA = {
     "C04": " The certificate version is the constant v3 on every path (DEFAULT v1 is never encoded).",
     "C07": " The iPAddress octet converter is a pure conversion chain (4 octets -> that IPv4 address, 16 -> that IPv6 address, other lengths an error).",
     "C08": " The CRL's authority key identifier goes through KeyIdMethod::derive (pre-specified ids unchanged, digests cut to 20 octets).",
-    "C09": " No pre-encoded (raw) element is computed from a time field.",
+    "C09": " No pre-encoded (raw) element is computed from a time field; every alternative of the value whose year selects the form is UTC-normalised or taken only when the offset is UTC.",
     "C10": " Every SET / SET OF element is written on exactly the paths on which its element writer was obtained (also through IMPLICIT re-tagging); panic sites of finite-domain functions are discharged by exhaustive evaluation.",
     "C11": " KeyPair::der_bytes is, per key kind, the key object's own public_key() unmodified; the signing arms as in C01; from_oid selects on equality of the whole arc sequence.",
     "C15": " The to-be-signed call graph includes the local Iterator::next impls that for-loops drive.",
     "C16": " KeyIdMethod::derive, the CA importer and der_bytes are checked in all three builds (K1/K2/K3).",
     "C17": " The EKU converter has no rejecting path of its own; DnType OID tables, SAN and iPAddress converters, string alphabets/sinks as for generation.",
-    "C18": " The SAN / KeyUsage / ExtendedKeyUsage / BasicConstraints writers and rcgen's own panic audit as compiled for the tool; main may delegate to a helper (ordering decided in the delegate).",
+    "C18": " The SAN / KeyUsage / ExtendedKeyUsage / BasicConstraints writers and rcgen's own panic audit as compiled for the tool; main may delegate to a helper (ordering decided in the delegate); the string admission predicates as compiled for the tool.",
     "C19": " Back-end calls that serialise private key material run only on behalf of the key generators; the export accessors store nothing into shared or interior-mutable state; public-key values built from caller-supplied encodings retain only the subjectPublicKey the X.509 parser extracted.",
 }
 checks = []
